@@ -6,6 +6,10 @@ package transformer
 
 import (
 	"strconv"
+	"strings"
+
+	"github.com/antlr4-go/antlr/v4"
+	"github.com/hashicorp/go-multierror"
 
 	openfgav1 "github.com/openfga/api/proto/openfga/v1"
 
@@ -111,5 +115,74 @@ func VerifC08_MergeWork() {
 		zzverif.Reach("merged")
 	} else {
 		zzverif.Reach("rejected")
+	}
+}
+
+// VerifC08_ListenerWork: the listener half of DSL -> model on nested parenthesised expressions of depth
+// d plus d further relations and d conditions (n = number of expression leaves, relations and
+// conditions).  Under the executor the budget covers the walk of the real listener over the generated
+// tree (tree construction is outside); natively it covers the real ParseDSL on the text, so that a
+// flagged blow-up is confirmed against lexer, parser and listener together.
+func VerifC08_ListenerWork() {
+	shape := zzverif.Choose("shape", 6)
+	d := 1 + zzverif.Choose("depth", zzverif.Param("D", 12))
+	var e *dExpr = &dExpr{kind: 1, name: "b"}
+	n := 1
+	for i := 0; i < d; i++ {
+		op := 1 + (i+shape)%3
+		if shape >= 3 {
+			op = shape - 2
+		}
+		kids := []*dExpr{{kind: 1, name: "b"}, e}
+		if i%2 == 1 && op != 3 {
+			kids = []*dExpr{e, {kind: 2, name: "b", from: "p"}}
+		}
+		e = &dExpr{kind: 3, op: op, operands: kids, parens: 1}
+		n += 2
+	}
+	e.parens = 0
+	doc := &dDoc{schema: "1.1", full: false}
+	doc.types = append(doc.types, dType{name: "user"})
+	t := dType{name: "doc"}
+	t.rels = append(t.rels, dRel{name: "b", expr: &dExpr{kind: 3, op: 0, operands: []*dExpr{{kind: 0, restr: []dRestr{{typ: "user"}}}}}},
+		dRel{name: "p", expr: &dExpr{kind: 3, op: 0, operands: []*dExpr{{kind: 0, restr: []dRestr{{typ: "doc"}}}}}},
+		dRel{name: "x", expr: e})
+	for i := 0; i < d; i++ {
+		t.rels = append(t.rels, dRel{name: "y" + strconv.Itoa(i), expr: &dExpr{kind: 3, op: 0, operands: []*dExpr{{kind: 1, name: "x"}}}})
+		doc.conds = append(doc.conds, dCond{name: "c" + strconv.Itoa(i), params: []dParam{{name: "q", typ: "int"}}, expr: []string{"q", "<", "1"}})
+		n += 2
+	}
+	doc.types = append(doc.types, t)
+	tree, b := docTree(doc)
+	budget := zzverif.Param("WA", 100000) + zzverif.Param("WB", 1000)*n*n
+	if zzverif.Param("MEASURE", 0) == 1 {
+		budget = 1 << 40
+	}
+	var l *OpenFgaDslListener
+	var errs *multierror.Error
+	zzverif.Stub("ParseDSL lexer+parser = grammar-conforming parse tree of the generated document (validated natively per witness)")
+	if !zzverif.Symbolic() {
+		zzverif.Budget("dsl-to-model-work-within-quadratic-bound", budget)
+		var el *OpenFgaDslErrorListener
+		l, el = ParseDSL(strings.Join(b.text, ""))
+		errs = el.Errors
+		zzverif.BudgetEnd()
+	} else {
+		el := newOpenFgaDslErrorListener()
+		b.p.RemoveErrorListeners()
+		b.p.AddErrorListener(el)
+		l = newOpenFgaDslListener()
+		zzverif.Budget("dsl-to-model-work-within-quadratic-bound", budget)
+		antlr.ParseTreeWalkerDefault.Walk(l, tree)
+		used := zzverif.BudgetEnd()
+		errs = el.Errors
+		if zzverif.Param("MEASURE", 0) == 1 {
+			zzverif.Observe("listener shape="+strconv.Itoa(shape)+" d="+strconv.Itoa(d)+" n="+strconv.Itoa(n), strconv.Itoa(used))
+		}
+	}
+	zzverif.Assert(errs == nil && l != nil, "nested-document-is-accepted")
+	if errs == nil && l != nil {
+		zzverif.Assert(len(l.authorizationModel.GetTypeDefinitions()) == 2 && len(l.authorizationModel.GetConditions()) == d, "nested-document-is-read-completely")
+		zzverif.Reach("walked")
 	}
 }
